@@ -194,7 +194,12 @@ class VM:
         return x
 
     def push(self, b):
-        if len(b) > self.env.max_item_size and type(b) is not Wild:
+        if type(b) is Wild:
+            # an item whose bytes the documents do not determine (the error record of a failed TRY, a random item): its
+            # length is unknown too, so against an item limit below a generous bound nothing can be said
+            if self.env.max_item_size < 1024:
+                raise Unspec('length of an undetermined item against a small item limit')
+        elif len(b) > self.env.max_item_size:
             raise RErr('limit:item')
         if len(self.stack) >= self.env.max_items:
             raise RErr('limit:stack')
